@@ -55,7 +55,7 @@ class SegmentsModel:
         self._blwo = blwo
         self.blwo_calls = []
 
-    def bit_length_with_overhead(self, version, eci, is_sa=False):
+    def bit_length_with_overhead(self, version, eci='<not passed>', is_sa=False):
         self.blwo_calls.append((version, eci, is_sa))
         if self._blwo is None:
             raise Unknown('bit_length_with_overhead model not configured')
